@@ -168,6 +168,16 @@ def pair_sustain(ctx, R="C07.pair"):
                   str(rc.at(cmp_[0], cmp_[0].test)) if cmp_ else "?"))
     both = [l for l in ra.for_loops() if str(l["iter"]) == "block.design"] and [l for l in rc.for_loops() if str(l["iter"]) == "block.design"]
     ctx.check(bool(both), R, c, "Sustain factors", "both sides range over block.design", "Sustain sides range over different factor sets")
+    # which factors are held: the encoder ties every factor of the design (no filter); the checker may skip only factors that
+    # are not sustained at all (count 1), where there is nothing to compare
+    la = [l["stmt"] for l in ra.for_loops() if str(l["iter"]) == "block.design"]
+    lc = [l["stmt"] for l in rc.for_loops() if str(l["iter"]) == "block.design"]
+    if la and lc:
+        fa = [str(ra.at(x, x.test)) for x in la[0].body if isinstance(x, ast.If)]
+        fc = [str(rc.at(x, x.test)) for x in lc[0].body if isinstance(x, ast.If)]
+        ctx.check(fa == [] and fc == ["(1 < %s)" % s], R, c, "Sustain factor filter %s / %s" % (fa, fc), "every factor of the design is held by the encoder; the checker skips only unsustained factors",
+                  "the two sides of Sustain cover different factors: encoder filter %s, checker filter %s (expected none / only `sustain count > 1`): a factor the encoder holds constant "
+                  "is not checked, or the reverse" % (fa, fc), lc[0])
 
 
 def pair_pin(ctx, R="C07.pair"):
